@@ -69,7 +69,21 @@ func vC18Strconv(n int) {
 	vAssume(base >= 2 && base <= 36)
 	vAssume(bits >= 0 && bits <= 64)
 	src := ro.FromSlice(items)
-	switch vChoice("op", 5) {
+	switch vChoice("op", 7) {
+	case 5:
+		got, err := ro.Collect(ParseUint64[string](base, bits)(src))
+		vExpect("ParseUint64", got, err, ids,
+			func(id int64) bool { return vUFBool("ParseUint.err", id, int64(base), int64(bits)) },
+			func(id int64) uint64 { return uint64(vUFInt("ParseUint", id, int64(base), int64(bits))) },
+			func(a, b uint64) bool { return a == b })
+	case 6:
+		// the stub's ParseFloat returns one fixed number: what is checked is which items fail, with
+		// which bitSize, and that the values before the failure are delivered
+		got, err := ro.Collect(ParseFloat[string](bits)(src))
+		vExpect("ParseFloat", got, err, ids,
+			func(id int64) bool { return vUFBool("ParseFloat.err", id, int64(bits)) },
+			func(id int64) float64 { return 1.5 },
+			func(a, b float64) bool { return a == b })
 	case 0:
 		got, err := ro.Collect(Atoi[string]()(src))
 		vExpect("Atoi", got, err, ids,
@@ -115,7 +129,58 @@ func vC18Format(n int) {
 		nums[i] = int64(vChoice("v"+vItoa(i), 3)) - 1 // -1, 0, 1
 	}
 	base := 2 + vChoice("base", 3)
-	switch vChoice("op", 2) {
+	switch vChoice("op", 7) {
+	case 2:
+		us := make([]uint64, cnt)
+		for i := range us {
+			us[i] = uint64(nums[i] + 1)
+		}
+		got, err := ro.Collect(FormatUint[string](base)(ro.FromSlice(us)))
+		vAssert(err == nil && len(got) == cnt, "FormatUint: not one text per item")
+		for i := range got {
+			vAssert(got[i] == stubstrconv.FormatUint(us[i], base), "FormatUint: the emitted text is not what the wrapped function returns for that item and base")
+		}
+	case 3:
+		bs := make([]bool, cnt)
+		for i := range bs {
+			bs[i] = nums[i] > 0
+		}
+		got, err := ro.Collect(FormatBool()(ro.FromSlice(bs)))
+		vAssert(err == nil && len(got) == cnt, "FormatBool: not one text per item")
+		for i := range got {
+			vAssert(got[i] == stubstrconv.FormatBool(bs[i]), "FormatBool: the emitted text is not what the wrapped function returns for that item")
+		}
+	case 4:
+		ss := make([]string, cnt)
+		for i := range ss {
+			ss[i] = vTexts[nums[i]+1]
+		}
+		got, err := ro.Collect(Quote()(ro.FromSlice(ss)))
+		vAssert(err == nil && len(got) == cnt, "Quote: not one text per item")
+		for i := range got {
+			vAssert(got[i] == stubstrconv.Quote(ss[i]), "Quote: the emitted text is not what the wrapped function returns for that item")
+		}
+	case 5:
+		rs := make([]rune, cnt)
+		for i := range rs {
+			rs[i] = rune(65 + nums[i])
+		}
+		got, err := ro.Collect(QuoteRune()(ro.FromSlice(rs)))
+		vAssert(err == nil && len(got) == cnt, "QuoteRune: not one text per item")
+		for i := range got {
+			vAssert(got[i] == stubstrconv.QuoteRune(rs[i]), "QuoteRune: the emitted text is not what the wrapped function returns for that item")
+		}
+	case 6:
+		fs := make([]float64, cnt)
+		for i := range fs {
+			fs[i] = float64(nums[i])
+		}
+		prec, bits := vChoice("prec", 3), 32*(1+vChoice("bits", 2))
+		got, err := ro.Collect(FormatFloat('f', prec, bits)(ro.FromSlice(fs)))
+		vAssert(err == nil && len(got) == cnt, "FormatFloat: not one text per item")
+		for i := range got {
+			vAssert(got[i] == stubstrconv.FormatFloat(fs[i], 'f', prec, bits), "FormatFloat: the emitted text is not what the wrapped function returns for those parameters")
+		}
 	case 0:
 		got, err := ro.Collect(FormatInt[string](base)(ro.FromSlice(nums)))
 		vAssert(err == nil && len(got) == cnt, "FormatInt: not one text per item")
